@@ -2,6 +2,11 @@
 import json
 from pathlib import Path
 ROOT = Path(__file__).resolve().parent.parent.parent
+import io, sys
+_out = io.StringIO()
+_print = print
+def print(*a, **k):
+    _print(*a, **k, file=_out)
 print("| id | property | needs to manifest | caught by (quick tier) | first mechanism reported |")
 print("|---|---|---|---|---|")
 for d in sorted((ROOT / "seeded").iterdir()):
@@ -17,3 +22,13 @@ for d in sorted((ROOT / "seeded").iterdir()):
     det = ", ".join(m.get("detected_by", [])) or "**missed**"
     note = " (missed at first; check strengthened)" if missed_first and m["property"] in m.get("detected_by", []) else ""
     print(f"| {d.name} | {m['property']} | {m['needs_to_manifest'][:170]} | {det}{note} | `{mech[:60]}` |")
+
+table = _out.getvalue()
+if "--write" in sys.argv:
+    p = ROOT / "DESIGN.md"
+    t = p.read_text()
+    a, b = t.index("<!-- SEEDTABLE:BEGIN -->"), t.index("<!-- SEEDTABLE:END -->")
+    p.write_text(t[:a] + "<!-- SEEDTABLE:BEGIN -->\n" + table + t[b:])
+    _print("DESIGN.md updated")
+else:
+    _print(table)
